@@ -365,6 +365,18 @@ def run(ctx):
                       if re.search(r"vector<|deque<|list<|array<|bitset<|map<|\[\d+\]", v.get("type") or "")]
             still_raises = any(exc == PARSER_ERROR for g in inner if g.has_cfg for b in g.reachable_blocks() if g.is_noreturn(b) for _, exc, _ in C04.raise_nodes(g, b))
             if others and still_raises:
+                # one thing can be said about such a structure without knowing its invariant: a binary search (binary_search / lower_bound /
+                # upper_bound / equal_range) over it presupposes a sorted range - letters that are only ever appended are in declaration order
+                oname = others[0][0]
+                scope_fns = [cpc] + [g for g in inner if g.has_cfg]
+                calls_on = [(g, n0) for g in scope_fns for _, _, e0 in g.roots() for n0 in walk(e0["expr"]) if isinstance(n0, dict) and n0.get("k") == "call"]
+                bsearch = [(g, n0) for g, n0 in calls_on if short(n0.get("name") or "") in ("binary_search", "lower_bound", "upper_bound", "equal_range") and oname in fmt(n0)]
+                appends = [n0 for g, n0 in calls_on if short(n0.get("name") or "") in ("push_back", "emplace_back") and n0.get("this") is not None and oname in fmt(n0["this"])]
+                ordered = [n0 for g, n0 in calls_on if (short(n0.get("name") or "") in ("sort", "stable_sort", "inplace_merge") and oname in fmt(n0)) or (short(n0.get("name") or "") in ("insert", "emplace") and n0.get("this") is not None and oname in fmt(n0["this"]))]
+                if bsearch and appends and not ordered:
+                    ctx.bad("R13.4", cpc, "one-letter-set-for-the-whole-parser", "the letters seen so far are appended to `%s %s` in declaration order (push_back) and looked up with %s, which presupposes a sorted range: "
+                            "a letter declared after a greater one is not found, two options then share it" % (others[0][1], oname, short(bsearch[0][1].get("name") or "")), (bsearch[0][0], bsearch[0][1].get("ln")))
+                    break
                 ctx.broken("R13.4", cpc, "one-letter-set-for-the-whole-parser", "the letters seen so far are kept in `%s %s`, not in a std::set: duplicate detection through this structure "
                            "(search + ordered insertion) is an idiom this rule does not recognise" % (others[0][1], others[0][0]), cpc)
                 break
